@@ -599,46 +599,114 @@ pub struct RoomDefinitionLog {
     pub history_hash: Option<Vec<u8>>,
 }
 impl RoomDefinitionLog {
+    ///
+    /// A room can hold several entities, each one with its own chain of daily logs:
+    /// the latest entry of every entity is read and, when there is more than one, combined
+    ///  - daily_hash covers every entity written at the last date
+    ///  - history_hash covers the chain of every entity up to the last date
+    ///
     pub fn get(
         room_id: &Uid,
         conn: &Connection,
     ) -> Result<Option<RoomDefinitionLog>, rusqlite::Error> {
-        let query = "
-            SELECT 
-                rcl.room_id as room_id,  
-                rcl.mdate as room_def_date, 
-                dl.date as last_data,
+        let mut stmt = conn.prepare_cached("SELECT mdate FROM _room_changelog WHERE room_id = ?")?;
+        let mut rows = stmt.query([room_id])?;
+        let room_def_date: i64 = match rows.next()? {
+            Some(row) => row.get(0)?,
+            None => return Ok(None),
+        };
+
+        let mut stmt = conn.prepare_cached(
+            "SELECT
+                dl.entity,
+                dl.date,
                 dl.entry_number,
                 dl.daily_hash,
-                dl.history_hash
-            FROM _room_changelog rcl
-            LEFT JOIN (
-                SELECT 
-                    _dl.room_id,
-                    _dl.date,
-                    _dl.entry_number,
-                    _dl.daily_hash,
-                    _dl.history_hash
-                FROM _daily_log _dl
-                WHERE date = (SELECT MAX(date) FROM _daily_log WHERE _dl.room_id=_daily_log.room_id)
-            ) as dl ON rcl.room_id=dl.room_id
-            WHERE rcl.room_id = ?
-            ";
-        let mut stmt = conn.prepare(query)?;
-        let mut rows = stmt.query([&room_id])?;
-        let res = if let Some(row) = rows.next()? {
-            Some(RoomDefinitionLog {
-                room_id: row.get(0)?,
-                room_def_date: row.get(1)?,
-                last_data_date: row.get(2)?,
-                entry_number: row.get(3)?,
-                daily_hash: row.get(4)?,
-                history_hash: row.get(5)?,
-            })
-        } else {
-            None
+                dl.history_hash,
+                dl.need_recompute
+            FROM _daily_log dl
+            WHERE
+                dl.room_id = ? AND
+                dl.date = (
+                    SELECT MAX(date) FROM _daily_log
+                    WHERE room_id = dl.room_id AND entity = dl.entity
+                )
+            ORDER BY dl.entity",
+        )?;
+        let mut rows = stmt.query([room_id])?;
+        let mut latest: Vec<DailyLog> = Vec::new();
+        while let Some(row) = rows.next()? {
+            latest.push(DailyLog {
+                room_id: *room_id,
+                entity: row.get(0)?,
+                date: row.get(1)?,
+                entry_number: row.get(2)?,
+                daily_hash: row.get(3)?,
+                history_hash: row.get(4)?,
+                need_recompute: row.get(5)?,
+            });
+        }
+
+        let mut room_log = RoomDefinitionLog {
+            room_id: *room_id,
+            room_def_date,
+            last_data_date: None,
+            entry_number: None,
+            daily_hash: None,
+            history_hash: None,
         };
-        Ok(res)
+
+        if let [log] = latest.as_slice() {
+            room_log.last_data_date = Some(log.date);
+            room_log.entry_number = Some(log.entry_number);
+            room_log.daily_hash = log.daily_hash.clone();
+            room_log.history_hash = log.history_hash.clone();
+        } else if let Some(last_date) = latest.iter().map(|log| log.date).max() {
+            let mut entry_number = 0;
+            let mut daily_hasher = blake3::Hasher::new();
+            let mut history_hasher = blake3::Hasher::new();
+            let mut computed = true;
+            for log in &latest {
+                if log.need_recompute {
+                    computed = false;
+                }
+                Self::hash_entity(&mut history_hasher, log);
+                Self::hash_optional(&mut history_hasher, &log.history_hash);
+                if log.date == last_date {
+                    entry_number += log.entry_number;
+                    Self::hash_entity(&mut daily_hasher, log);
+                    Self::hash_optional(&mut daily_hasher, &log.daily_hash);
+                } else {
+                    //the history of an entity stops before its latest day
+                    Self::hash_optional(&mut history_hasher, &log.daily_hash);
+                }
+            }
+            room_log.last_data_date = Some(last_date);
+            room_log.entry_number = Some(entry_number);
+            if computed {
+                room_log.daily_hash = Some(daily_hasher.finalize().as_bytes().to_vec());
+                room_log.history_hash = Some(history_hasher.finalize().as_bytes().to_vec());
+            }
+        }
+        Ok(Some(room_log))
+    }
+
+    fn hash_entity(hasher: &mut blake3::Hasher, log: &DailyLog) {
+        hasher.update(&(log.entity.len() as u64).to_le_bytes());
+        hasher.update(log.entity.as_bytes());
+        hasher.update(&log.date.to_le_bytes());
+    }
+
+    fn hash_optional(hasher: &mut blake3::Hasher, hash: &Option<Vec<u8>>) {
+        match hash {
+            Some(hash) => {
+                hasher.update(&[1]);
+                hasher.update(hash);
+            }
+            None => {
+                hasher.update(&[0]);
+            }
+        }
     }
 }
 #[cfg(test)]
